@@ -30,6 +30,32 @@ Proof.
   - unfold set_st. rewrite set_oob by exact H. rewrite andb_false_r. reflexivity.
 Qed.
 
+(* FrameBox::clear_first_pdu touches the key only *)
+Lemma op_drop_clear_status s i j : sst (get (op_drop_clear s i) j) = sst (get s j).
+Proof.
+  unfold op_drop_clear. destruct (Nat.ltb_spec i (nslots s)) as [H|H].
+  - destruct (Nat.eq_dec j i) as [->|N]; [rewrite get_set_eq by exact H|rewrite get_set_ne by exact N]; reflexivity.
+  - rewrite set_oob by exact H. reflexivity.
+Qed.
+
+Lemma op_drop_clear_nslots s i : nslots (op_drop_clear s i) = nslots s.
+Proof. unfold op_drop_clear. apply nslots_set. Qed.
+
+Lemma op_drop_created_noop s i : sst (get s i) <> SCreated -> op_drop_created s i = s.
+Proof. intros H. unfold op_drop_created. apply N.eqb_neq in H. rewrite H. reflexivity. Qed.
+
+Lemma op_drop_created_yes s i : sst (get s i) = SCreated ->
+  op_drop_created s i = set_st (op_drop_clear s i) i SNone.
+Proof. intros H. unfold op_drop_created. rewrite H. reflexivity. Qed.
+
+(* status of slot j after "clear key of i, then store st into i" *)
+Lemma sst_clear_set s i st j : (i < nslots s)%nat ->
+  sst (get (set_st (op_drop_clear s i) i st) j) = if Nat.eqb j i then st else sst (get s j).
+Proof.
+  intros H. rewrite sst_set_st by (rewrite op_drop_clear_nslots; exact H).
+  destruct (Nat.eqb j i); [reflexivity|apply op_drop_clear_status].
+Qed.
+
 Definition same_slots (s s' : pstate) : Prop := slots s' = slots s /\ cap s' = cap s.
 
 Lemma get_same s s' j : same_slots s s' -> get s' j = get s j.
@@ -331,8 +357,8 @@ Proof.
   assert (St0 : forall j, sst (get s0 j) = sst (get s j)).
   { intros j. subst s0. destruct (Nat.eq_dec j i) as [->|N];
       [rewrite get_set_eq by exact Hi|rewrite get_set_ne by exact N]; reflexivity. }
-  assert (C : cas (set_st s0 i SSendable) i SCreated SNone = None).
-  { unfold cas. rewrite sst_set_st by (rewrite N0; exact Hi). rewrite Nat.eqb_refl. reflexivity. }
+  assert (C : op_drop_created (set_st s0 i SSendable) i = set_st s0 i SSendable).
+  { apply op_drop_created_noop. rewrite sst_set_st by (rewrite N0; exact Hi). rewrite Nat.eqb_refl. discriminate. }
   rewrite C. split.
   - eapply own_update with (st' := SSendable); eauto.
     + rewrite nslots_set_st. exact N0.
@@ -343,18 +369,21 @@ Proof.
   - apply wf_set_st. destruct W as [I F]. split; [rewrite N0; exact I|exact F].
 Qed.
 
+Lemma wf_clear s i : Wf s -> Wf (op_drop_clear s i).
+Proof. intros [I F]. split; [rewrite op_drop_clear_nslots; exact I|exact F]. Qed.
+
 Lemma op_drop_created_good s h i : Good s h -> hget h i = HCreated ->
   Good (op_drop_created s i) (upd i HNone h).
 Proof.
   intros [O W] Hh. assert (Hi : (i < nslots s)%nat).
   { destruct O as [L _]. rewrite <- L. eapply hget_some; eauto. discriminate. }
   pose proof (own_compat _ _ _ O Hi) as C. rewrite Hh in C. cbn in C.
-  unfold op_drop_created, cas. rewrite C. cbn [N.eqb]. rewrite N.eqb_refl.
-  split; [|apply wf_set_st; exact W].
+  rewrite op_drop_created_yes by exact C.
+  split; [|apply wf_set_st, wf_clear; exact W].
   eapply own_update with (st' := SNone); eauto.
-  - apply nslots_set_st.
-  - intros j Nj. rewrite sst_set_st by exact Hi. apply Nat.eqb_neq in Nj. rewrite Nj. reflexivity.
-  - rewrite sst_set_st by exact Hi. rewrite Nat.eqb_refl. reflexivity.
+  - rewrite nslots_set_st. apply op_drop_clear_nslots.
+  - intros j Nj. rewrite sst_clear_set by exact Hi. apply Nat.eqb_neq in Nj. rewrite Nj. reflexivity.
+  - rewrite sst_clear_set by exact Hi. rewrite Nat.eqb_refl. reflexivity.
   - reflexivity.
 Qed.
 
@@ -362,11 +391,11 @@ Lemma op_drop_fut_good s h i : Good s h -> hget h i = HFut -> Good (op_drop_fut 
 Proof.
   intros [O W] Hh. assert (Hi : (i < nslots s)%nat).
   { destruct O as [L _]. rewrite <- L. eapply hget_some; eauto. discriminate. }
-  unfold op_drop_fut. split; [|apply wf_set_st; exact W].
+  unfold op_drop_fut. split; [|apply wf_set_st, wf_clear; exact W].
   eapply own_update with (st' := SNone); eauto.
-  - apply nslots_set_st.
-  - intros j Nj. rewrite sst_set_st by exact Hi. apply Nat.eqb_neq in Nj. rewrite Nj. reflexivity.
-  - rewrite sst_set_st by exact Hi. rewrite Nat.eqb_refl. reflexivity.
+  - rewrite nslots_set_st. apply op_drop_clear_nslots.
+  - intros j Nj. rewrite sst_clear_set by exact Hi. apply Nat.eqb_neq in Nj. rewrite Nj. reflexivity.
+  - rewrite sst_clear_set by exact Hi. rewrite Nat.eqb_refl. reflexivity.
   - reflexivity.
 Qed.
 
@@ -376,16 +405,14 @@ Proof.
   intros [O W] Hh. assert (Hi : (i < nslots s)%nat).
   { destruct O as [L _]. rewrite <- L. eapply hget_some; eauto. discriminate. }
   pose proof (own_compat _ _ _ O Hi) as C. rewrite Hh in C. cbn in C.
-  unfold op_drop_received, cas. rewrite C, N.eqb_refl. eexists. split; [reflexivity|].
-  split.
-  - eapply own_update with (st' := SNone); eauto.
-    + rewrite nslots_set, nslots_set_st. reflexivity.
-    + intros j Nj. rewrite get_set_ne by exact Nj. rewrite sst_set_st by exact Hi.
-      apply Nat.eqb_neq in Nj. rewrite Nj. reflexivity.
-    + rewrite get_set_eq by (rewrite nslots_set_st; exact Hi). cbn [sst].
-      rewrite sst_set_st by exact Hi. rewrite Nat.eqb_refl. reflexivity.
-    + reflexivity.
-  - destruct W as [I F]. split; [rewrite nslots_set, nslots_set_st; exact I|exact F].
+  unfold op_drop_received, cas. rewrite op_drop_clear_status, C, N.eqb_refl.
+  eexists. split; [reflexivity|].
+  split; [|apply wf_set_st, wf_clear; exact W].
+  eapply own_update with (st' := SNone); eauto.
+  - rewrite nslots_set_st. apply op_drop_clear_nslots.
+  - intros j Nj. rewrite sst_clear_set by exact Hi. apply Nat.eqb_neq in Nj. rewrite Nj. reflexivity.
+  - rewrite sst_clear_set by exact Hi. rewrite Nat.eqb_refl. reflexivity.
+  - reflexivity.
 Qed.
 
 (* TX: only Sendable -> Sending -> Sent | Sendable, all inside HFut *)
@@ -469,12 +496,12 @@ Proof.
   destruct C as [C | [C | C]]; rewrite C; cbn [N.eqb Pos.eqb SSendable SSent SRxDone SRxProcessing].
   - (* Sendable *)
     destruct ex; [destruct rt as [|rt]|]; cbn.
-    + split; [apply Upd; reflexivity|]. intros e E; inversion E; reflexivity.
+    + split; [apply (op_drop_fut_good s h i (conj O W) Hh)|]. intros e E; inversion E; reflexivity.
     + split; [apply Same; cbn; auto|]. intros e E; inversion E.
     + split; [split; assumption|]. intros e E; inversion E.
   - (* Sent *)
     destruct ex; [destruct rt as [|rt]|]; cbn.
-    + split; [apply Upd; reflexivity|]. intros e E; inversion E; reflexivity.
+    + split; [apply (op_drop_fut_good s h i (conj O W) Hh)|]. intros e E; inversion E; reflexivity.
     + split; [apply Same; cbn; auto|]. intros e E; inversion E.
     + split; [split; assumption|]. intros e E; inversion E.
   - (* RxDone *)
@@ -595,19 +622,23 @@ Proof.
   unfold op_tx_done. destruct (oc =? 0); apply wfp_set_st, wfp_set_st; exact W.
 Qed.
 
+Lemma op_drop_clear_wfp s i : wf_pstate s -> wf_pstate (op_drop_clear s i).
+Proof.
+  intros W. unfold op_drop_clear. destruct (Nat.ltb_spec i (nslots s)) as [H|H].
+  - apply wfp_set; auto. cbn. apply W. exact H.
+  - rewrite set_oob by exact H. exact W.
+Qed.
+
 Lemma op_poll_wfp s i ex rt : wf_pstate s -> wf_pstate (fst (fst (op_poll s i ex rt))).
 Proof.
   intros W. unfold op_poll, cas. destruct (_ =? SRxDone); cbn [fst]; [apply wfp_set_st; exact W|].
-  destruct ex; [destruct rt|]; cbn [fst]; try apply wfp_set_st; exact W.
+  destruct ex; [destruct rt|]; cbn [fst]; try apply wfp_set_st; try apply op_drop_clear_wfp; exact W.
 Qed.
 
 Lemma op_drop_received_wfp s i s' : wf_pstate s -> op_drop_received s i = Ok s' -> wf_pstate s'.
 Proof.
   intros W H. unfold op_drop_received, cas in H. destruct (_ =? SRxProcessing); [|discriminate].
-  inversion H; subst. destruct (Nat.ltb_spec i (nslots s)) as [Hi|Hi].
-  - apply wfp_set; [apply wfp_set_st; exact W|]. cbn [sfr].
-    pose proof (wfp_set_st s i SNone W) as W2. apply (W2 i). rewrite nslots_set_st. exact Hi.
-  - rewrite set_oob by (rewrite nslots_set_st; exact Hi). apply wfp_set_st; exact W.
+  inversion H; subst. apply wfp_set_st, op_drop_clear_wfp. exact W.
 Qed.
 
 (* ---------- every reachable client state is good ---------- *)
@@ -637,10 +668,10 @@ Proof.
                                        shdr := ecat_header (fused (sfr (get s i))) |})).
     { destruct (Nat.ltb_spec i (nslots s)) as [Hi|Hi]; [apply wfp_set; auto; cbn; apply Wp; exact Hi|].
       rewrite set_oob by exact Hi. exact Wp. }
-    destruct (cas _ _ _ _) as [s2|] eqn:C; [apply cas_some in C as [_ ->]; apply wfp_set_st|]; apply wfp_set_st; exact W0.
+    unfold op_drop_created. destruct (_ =? SCreated); [apply wfp_set_st, op_drop_clear_wfp|]; apply wfp_set_st; exact W0.
   - destruct (hk_eqb (hget h i) HCreated) eqn:E; [|discriminate]. hk_case E. inversion H; subst. cbn [fst snd].
     split; [apply op_drop_created_good; [split; assumption|exact E]|].
-    unfold op_drop_created. destruct (cas _ _ _ _) as [s2|] eqn:C; [apply cas_some in C as [_ ->]; apply wfp_set_st|]; exact Wp.
+    unfold op_drop_created. destruct (_ =? SCreated); [apply wfp_set_st, op_drop_clear_wfp|]; exact Wp.
   - (* tx *)
     pose proof (tx_send_good s h outcome (conj O W)) as G. pose proof (tx_send_wfp s outcome Wp) as Wq.
     destruct (op_tx_claim s) as [s1 r]. inversion H; subst. cbn [fst snd]. split; assumption.
@@ -652,7 +683,7 @@ Proof.
     destruct (op_poll s i expired retries) as [[s' r] rt']. destruct G as [G _].
     inversion H; subst. cbn [fst snd] in *. split; assumption.
   - destruct (hk_eqb (hget h i) HFut) eqn:E; [|discriminate]. hk_case E. inversion H; subst. cbn [fst snd].
-    split; [apply op_drop_fut_good; [split; assumption|exact E]|apply wfp_set_st; exact Wp].
+    split; [apply op_drop_fut_good; [split; assumption|exact E]|apply wfp_set_st, op_drop_clear_wfp; exact Wp].
   - destruct (hk_eqb (hget h i) HReceived) eqn:E; [|discriminate]. hk_case E.
     destruct (op_drop_received_good s h i (conj O W) E) as (s' & Es & G). rewrite Es in H.
     inversion H; subst. cbn [fst snd]. split; [exact G|eapply op_drop_received_wfp; eauto].
@@ -804,8 +835,7 @@ Proof.
   intros I R E. pose proof (crun_inv ops _ _ (inv_init n cap I) R) as [[O W] _]. cbn [fst snd] in *.
   assert (Hi : (i < nslots s)%nat).
   { destruct O as [L _]. rewrite <- L. eapply hget_some; eauto. discriminate. }
-  destruct (op_drop_created_good s h i (conj O W) E) as [O' _].
-  pose proof (own_compat _ _ _ O' ltac:(unfold op_drop_created; destruct (cas _ _ _ _) eqn:C;
-     [apply cas_some in C as [_ ->]; rewrite nslots_set_st|]; exact Hi)) as C.
-  rewrite hget_upd_eq in C by (destruct O as [L _]; lia). exact C.
+  pose proof (own_compat _ _ _ O Hi) as C. rewrite E in C. cbn in C.
+  rewrite op_drop_created_yes by exact C. rewrite sst_clear_set by exact Hi.
+  rewrite Nat.eqb_refl. reflexivity.
 Qed.
